@@ -50,6 +50,12 @@ def tokget (d : Bytes) : String :=
     s!"{fmtOpt Hex.ofBytes (getAccountMint t22 d)}:{fmtOpt Hex.ofBytes (getAccountOwner t22 d)}:{fmtOpt toString (getAccountAmount t22 d)}:{fmtOpt toString (getMintSupply t22 d)}:{fmtOpt (fun (b : UInt8) => toString b.toNat) (getMintDecimals t22 d)}"
   s!"T={one false} X={one true}"
 
+/-- a long buffer `(len, first 166 bytes)` → its stand-in; rejected unless `len ≥ 357` and the head is 166 bytes -/
+def big (len head : String) : Option Bytes := do
+  let n ← len.toNat?
+  let h ← Hex.toBytes head
+  if 357 ≤ n ∧ h.length = 166 then pure (Token.standIn h) else none
+
 def handle (toks : List String) : Option String :=
   match toks with
   | ["tok", d, p] => do
@@ -64,6 +70,17 @@ def handle (toks : List String) : Option String :=
   | ["tokref", d] => do
     let d ← Hex.toBytes d
     pure (tokref d)
+  -- long buffers, given by their length and first 166 bytes (justified by C16/C17_length_frame)
+  | ["tokbig", len, head, p] => do
+    let h ← big len head
+    let p ← Hex.toBytes p
+    pure (tok h p)
+  | ["tokgetbig", len, head] => do
+    let h ← big len head
+    pure (tokget h)
+  | ["tokrefbig", len, head] => do
+    let h ← big len head
+    pure (tokref h)
   | _ => none
 
 end Driver.Tok
